@@ -289,8 +289,8 @@ theorem openStep_ws (cfg : PartCfg) (s : DC) (x : Xml) (c : Bool) (roots : List 
   simp [closeTableCell]
 
 @[simp] theorem closeStep_ws (cfg : PartCfg) (s : DC) (x : Xml) : closeStep cfg s (wsX x) = closeStep cfg s x := by
-  unfold closeStep
-  simp only [wsX_ptag, closeTableCell_ws]
+  unfold closeStep closeStepCore
+  simp only [wsX_ptag, closeTableCell_ws, elemDepth_ws]
 
 theorem isCellTag_ws (x : Xml) : isCellTag (wsX x) = isCellTag x := by simp [isCellTag]
 
